@@ -3,7 +3,7 @@ CFG = dict(
               "C08.ontime_cover_from_arrival", "C08.earliest_start_before_advance", "C08.pass_done", "C08.late_extension_coincides",
               "C08.redelivered_row_stays_buffered", "C08.late_row_in_current_slot_stays_buffered"],
     rule="event-time op sequences as in C01 on the slide lattice, for (size,slide) in {(2,1),(3,2),(5,5),(2,3),(7,3),(10,5),(4,1)}·unit "
-         "(slide|size, slide∤size, slide=size, slide>size), MAXOUTOFORDERNESS in {0, slide/2, slide, size, 2size+1}; one case in four with ALLOWEDLATENESS in {1, slide, size, 3size} and late rows around the allowance; one in twelve with IDLETIMEOUT (forced, natural, live timestamps); distinct = distinct (cfg, op list)",
+         "(slide|size, slide∤size, slide=size, slide>size), MAXOUTOFORDERNESS in {0, slide/2, slide, size, 2size+1}; one case in four with ALLOWEDLATENESS in {1, slide, size, 3size} and late rows around the allowance; one in twelve with IDLETIMEOUT (forced, natural, live timestamps); distinct = distinct (cfg, op list) Added late: op `reset`; `winapi` / `reuse` variant of the free-running cases; a directed scenario with two late rows for one fired interval and firings between. Every fifth case runs under WithHighPerformance (`preset high`), for C05/C06/C12/C13/C14/C16/C20 another fifth under WithLowLatency (`preset low`); every seventh case follows a noise prelude (failing statements, malformed rows, panicking sink / function in other instances).",
     assumptions=["C08 history theorems are for ALLOWEDLATENESS = 0 (late updates of sliding windows are C02); the executed model covers lateness > 0 and coincides with the base model at 0 (late_extension_coincides); for lateness > 0 membership of a late row in the pending intervals is proved at step level only (the row stays buffered) and checked on the traces by the oracle clause row-reported-before-missing-from-covering-interval",
                  "pre-1970 timestamps outside the claim (hypothesis OpsOk)",
                  "processing-time sliding windows are not modelled (the property is stated for event time)",
